@@ -107,7 +107,7 @@ class SpyBreaker:
             from redress.circuit import _BreakerDecision
 
             d = _BreakerDecision(True, redress.CircuitState.CLOSED, None)
-        self._w.t(("br.allow", d.allowed))
+        self._w.t(("br.allow", d.allowed, d.state.value))
         return d
 
     def record_success(self):
